@@ -7,5 +7,6 @@ CandsDef == [n \in Node |-> IF n = r1 THEN [relays |-> <<r2>>, exits |-> <<x>>]
                             ELSE IF n = r2 THEN [relays |-> <<r1>>, exits |-> <<x>>]
                             ELSE [relays |-> <<r1, r2>>, exits |-> <<x>>]]
 FirstHopsDef == [n \in Node |-> <<r1>>]
+RankDef == [n \in Node |-> IF n = o THEN 1 ELSE IF n = o2 THEN 2 ELSE IF n = r1 THEN 3 ELSE IF n = r2 THEN 4 ELSE 5]
 CandsSmall == [n \in Node |-> [relays |-> <<>>, exits |-> <<x>>]]
 =============================================================================
